@@ -24,8 +24,9 @@ type dbgEntry struct {
 	src string
 }
 
-// debugRun compiles with closure.DebugCompile and runs with a fresh record.
-func debugRun(sess *bridge.Session, src string, env *bridge.Env) (res bridge.Result, entries []debug.VerifEntry, report string, cerr *bridge.CompileErr, rerr string) {
+// debugRun compiles with closure.DebugCompile and runs with a fresh record
+// (or, reuseRecord, with a record that already served one evaluation).
+func debugRun(sess *bridge.Session, src string, env *bridge.Env, reuseRecord bool) (res bridge.Result, entries []debug.VerifEntry, report string, cerr *bridge.CompileErr, rerr string) {
 	tree, err := sess.ParseSrc(src)
 	if err != nil {
 		return res, nil, "", err, ""
@@ -51,6 +52,11 @@ func debugRun(sess *bridge.Session, src string, env *bridge.Env) (res bridge.Res
 	venv := env.ValEnv()
 	venv.Dgb = rcd
 	rt := venv.Inherit(sess.VEnv)
+	if reuseRecord {
+		// the same record serves a first evaluation; DebugCompile clears it
+		// before every run, so the second run must look like a first one
+		sess.ExecFunc(func() *val.Val { return cl(rt) })
+	}
 	res = sess.ExecFunc(func() *val.Val { return cl(rt) })
 	entries = rcd.VerifEntries()
 	func() {
@@ -114,7 +120,11 @@ func checkDebug(c *run.Ctx, id string, e *ref.E, env *bridge.Env, user []*ref.Fu
 		}
 	}
 	sess := bridge.NewSession(user)
-	res, entries, report, cerr, renderErr := debugRun(sess, src, env)
+	reuse := len(src)%3 == 0
+	res, entries, report, cerr, renderErr := debugRun(sess, src, env, reuse)
+	if reuse {
+		c.Count("record_reused", 1)
+	}
 	if (cerr == nil) != (rerr == nil) {
 		return // acceptance is C05's subject
 	}
@@ -348,7 +358,7 @@ func runC19(c *run.Ctx) {
 			checkDebug(c, id, e, env, us, host)
 			if i%499 == 0 {
 				src, _ := ref.RenderCols(e)
-				_, _, rep, _, _ := debugRun(bridge.NewSession(us), src, env)
+				_, _, rep, _, _ := debugRun(bridge.NewSession(us), src, env, false)
 				c.Sample(map[string]string{"source": src, "report": rep})
 			}
 		})
@@ -398,7 +408,7 @@ func runC19(c *run.Ctx) {
 func init() {
 	run.Register(&run.Spec{
 		ID: "C19", Run: runC19, Level: "exploration",
-		Rule: "generated single-line programs (80% sugared; ASCII, CJK and emoji identifiers and strings; values that render on several lines; 8% failing sub-terms; unevaluated lazy branches) with and without harness functions, the laziness families and the field-permutation families, run through closure.DebugCompile with a fresh record (hook: entries) and, for built-in-only programs over host data, through yae.Debug; " +
+		Rule: "generated single-line programs (80% sugared; ASCII, CJK and emoji identifiers and strings; values that render on several lines; 8% failing sub-terms; unevaluated lazy branches) with and without harness functions, the laziness families and the field-permutation families, run through closure.DebugCompile with a fresh record or with a record that already served one evaluation (hook: entries) and, for built-in-only programs over host data, through yae.Debug; " +
 			"monitor: result / failure equals normal evaluation (reference evaluator, vm, closure); recorded entries == the reference evaluator's log of (value, column) for every identifier, call, member and subscript actually evaluated, in evaluation order, columns from the harness's own rendering (identifier start; operator, '?' or '(' of a call; '['; '.'); report: never fails, first line is the source, every recorded value appears at its column (multi-line values on consecutive lines); yae.Debug report == report of the same record. distinct = distinct source",
 		Assume:    []string{"lazy host functions that force one thunk twice are excluded (a second record of one term has no column of its own)"},
 		MinEvents: 1000, EventKey: "debug_runs",
